@@ -13,7 +13,7 @@ Not decided: "resume within the retry budget" (liveness over fault sequences).
 import ast
 
 from ..model import self_attr, unparse, walk_body_shallow
-from .util import case_reach, filtered_collects, isinstance_classes, at, call_name, call_recv, calls_in, kwarg, need, node_assign_value, norm, where
+from .util import expand, case_reach, filtered_collects, isinstance_classes, at, call_name, call_recv, calls_in, kwarg, need, node_assign_value, norm, where
 
 TECHNIQUE = "index-variable def-use in the merge, guard-fact dominance of removals, exhaustiveness of the invalidation table"
 EXPLANATION = (
@@ -119,6 +119,31 @@ def run(ctx):
             "(conditions: %s)" % (deps if um else "?"), where(ub, ub.node),
             "broker re-addressed under the same id: the `unchanged` test compares with a cache that was updated two lines earlier, the "
             "client never learns the new address and reconnects to the old one for ever")
+    # sibling tables: `clients` and `_brokers` are both keyed by node id; on a full refresh the ids missing from the reply
+    # leave BOTH (broker-agnostic requests iterate `_brokers` and would re-create a client for a vanished broker)
+    fu = ctx.facts(ub)
+    rem_p = ub.params[2] if len(ub.params) > 2 else "remove"
+    for table in ("clients", "_brokers"):
+        okp = False
+        for x in ast.walk(ub.node):
+            gens = []
+            if isinstance(x, ast.For) and isinstance(x.target, ast.Name):
+                gens = [(x.target.id, x.iter, x)]
+            elif isinstance(x, (ast.ListComp, ast.GeneratorExp, ast.SetComp)) and len(x.generators) == 1 and isinstance(x.generators[0].target, ast.Name):
+                gens = [(x.generators[0].target.id, x.generators[0].iter, x)]
+            for var, it, holder in gens:
+                it = expand(prog, ub, it, calls=True)  # the difference may be named first
+                it_t = norm(it)
+                if not (isinstance(it, ast.BinOp) and isinstance(it.op, ast.Sub) and "self.%s" % table in norm(it.left) and "self." not in norm(it.right)):
+                    continue
+                removes = [y for y in ast.walk(holder) if (isinstance(y, ast.Call) and call_name(y) == "pop" and call_recv(y) == "self.%s" % table and
+                                                            y.args and norm(y.args[0]) == var) or (
+                    isinstance(y, ast.Delete) and any(norm(t) == "self.%s[%s]" % (table, var) for t in y.targets))]
+                nodes_ = cu.containing(removes[0]) if removes else []
+                if removes and nodes_ and (rem_p, True) in fu[nodes_[0].id]:
+                    okp = True
+        r.check(okp, "%s#full-refresh-prunes(%s)" % (ub.qname, table), "on a full refresh the node ids missing from the reply are not removed from `%s`" % table,
+                where(ub, ub.node), "a decommissioned broker stays known: the next broker-agnostic request re-creates a client for it and dials its old address")
     lm = ctx.func(KC + ".load_metadata_for_topics")
     hresp = next((g for g in lm.nested.values() if calls_in(g, "_merge_topic_metadata")), None)
     okf = hresp is not None
@@ -255,7 +280,8 @@ MUTANTS = [
     {"id": "leaderless-keeps-broker", "file": "client.py", "old": "                    self.topics_to_brokers[topic_part] = None",
      "new": "                    self.topics_to_brokers[topic_part] = brokers.get(meta.leader)", "expect": "C08.R1"},
     {"id": "partitions-unsorted", "file": "client.py", "old": "            self.topic_partitions[topic].sort()\n", "new": "", "expect": "C08.R1"},
-    {"id": "prune-on-partial", "file": "client.py", "old": "        if remove:\n            to_close", "new": "        if True:\n            to_close", "expect": "C08.R2"},
+    {"id": "prune-on-partial", "file": "client.py", "old": "        if remove:\n            for node_id in set(self._brokers)", "new": "        if True:\n            for node_id in set(self._brokers)", "expect": "C08.R2"},
+    {"id": "broker-table-only-grows", "file": "client.py", "old": "            for node_id in set(self._brokers) - set(brokers_by_id):\n                del self._brokers[node_id]\n", "new": "", "expect": "C08.R2", "note": "finding F20"},
     {"id": "remove-flag-always", "file": "client.py", "old": "ok_to_remove = fetched_all_topics and len(brokers)", "new": "ok_to_remove = len(brokers)",
      "expect": "C08.R2"},
     {"id": "update-skipped-when-cache-equal", "file": "client.py", "old": "            if node_id not in self.clients:\n                continue\n            self.clients[node_id].updateMetadata(broker_meta)",
